@@ -43,6 +43,8 @@ type Core struct {
 	// GetGateAfter, when set, is called after every Get has read its value (outside the lock): the caller
 	// is parked holding a possibly stale answer.
 	GetGateAfter func(key string, found bool)
+	// WriteGate, when set, is called before every atomic write (direct Put/Delete or batch commit) is applied.
+	WriteGate func(w Write)
 }
 
 func NewCore() *Core { return &Core{m: map[string][]byte{}} }
@@ -72,6 +74,9 @@ func Image(log []Write, upto int) map[string][]byte {
 }
 
 func (c *Core) apply(w Write) error {
+	if g := c.WriteGate; g != nil {
+		g(w) // outside the lock: the writer (flush loop, deleter) can be parked right before its write lands
+	}
 	c.mu.Lock()
 	defer c.mu.Unlock()
 	if c.Fault != nil && c.Fault(w) {
